@@ -1,0 +1,12 @@
+//go:build verif
+
+package atomic
+
+// VerifHook, when set, is called before every atomic step (verification builds only).
+var VerifHook func(op string)
+
+func verifYield(op string) {
+	if h := VerifHook; h != nil {
+		h(op)
+	}
+}
